@@ -107,8 +107,8 @@ func DrawProfile(property, tier string, r *PRNG) *Profile {
 		p.PBank = Pick(r, []float64{0.03, 0.08, 0.15})
 		p.PMulti = Pick(r, []float64{0.05, 0.15})
 		scale(p.Weights, dataKinds, 0.2)
-		if thorough && r.Chance(0.5) {
-			p.WideW = 1.5
+		if (thorough && r.Chance(0.5)) || r.Chance(0.2) {
+			p.WideW = 1.5 // "very large values" are part of the property's domain: also in the quick tier
 		}
 	case "C02":
 		core("Mint", "BridgeReceive", "Retire", "Cancel", "Take", "Buy", "Seal", "Put", "Sell", "BasketCreate")
@@ -130,12 +130,13 @@ func DrawProfile(property, tier string, r *PRNG) *Profile {
 		scale(p.Weights, []string{"Put", "Take", "BasketCreate"}, 2.5)
 		scale(p.Weights, []string{"BankSend"}, 1.5)
 		scale(p.Weights, dataKinds, 0.1)
-		if thorough && r.Chance(0.5) {
-			p.WideW = 2
+		if (thorough && r.Chance(0.5)) || r.Chance(0.25) {
+			p.WideW = 2 // "very large totals" are part of the property's domain: also in the quick tier
 		}
 	case "C06", "C12":
 		core("Sell", "UpdSell", "CancelSell", "Buy", "AddDenom", "RemoveDenom")
 		scale(p.Weights, []string{"Sell", "UpdSell", "CancelSell", "Buy"}, 2.5)
+		scale(p.Weights, []string{"AddDenom", "RemoveDenom"}, 3)
 		scale(p.Weights, dataKinds, 0.1)
 		scale(p.Weights, basketKinds, 0.4)
 		if property == "C12" {
@@ -209,6 +210,12 @@ func DrawProfile(property, tier string, r *PRNG) *Profile {
 		p.GenesisK = Pick(r, []string{"default", "seeded", "seeded"})
 		scale(p.Weights, dataKinds, 3)
 		p.MaxTxs = r.Range(30, 120)
+		if r.Chance(0.35) {
+			// data ids collide: the data queries must still answer for the right entry
+			hl := r.Range(2, 8)
+			p.Hasher = &HasherCfg{Kind: "weak", Outputs: r.Range(1, 3), HashLen: hl, MinLength: r.Range(1, hl)}
+			scale(p.Weights, dataKinds, 3)
+		}
 	case "C20":
 		for k := range p.Weights {
 			if k[0] != '_' {
@@ -230,6 +237,33 @@ func DrawProfile(property, tier string, r *PRNG) *Profile {
 		scale(p.Weights, []string{"CreateClass", "BasketCreate"}, 2)
 		p.PProbe = Pick(r, []float64{0.15, 0.3})
 		p.GenesisK = Pick(r, []string{"default", "default", "zerofee", "feeedge", "seeded"})
+	}
+	// broad properties: every run additionally focuses on one area, so that each area is explored in depth
+	switch property {
+	case "C01", "C09", "C10", "C17", "C03", "C04":
+		switch Pick(r, []string{"mixed", "mixed", "basket", "market", "bridge", "data", "roles"}) {
+		case "basket":
+			core("BasketCreate", "Put", "Take")
+			scale(p.Weights, []string{"Put", "Take", "BasketCreate"}, 3.5)
+			scale(p.Weights, []string{"CreateBatch"}, 1.5)
+			p.Name += "/basket"
+		case "market":
+			core("Sell", "UpdSell", "CancelSell", "Buy")
+			scale(p.Weights, []string{"Sell", "UpdSell", "CancelSell", "Buy"}, 3)
+			p.Name += "/market"
+		case "bridge":
+			core(bridgeKinds...)
+			scale(p.Weights, bridgeKinds, 2.5)
+			p.Name += "/bridge"
+		case "data":
+			core(dataKinds...)
+			scale(p.Weights, dataKinds, 6)
+			p.Name += "/data"
+		case "roles":
+			core(roleKinds...)
+			scale(p.Weights, roleKinds, 3)
+			p.Name += "/roles"
+		}
 	}
 	if faultFree && property != "C10" && property != "C09" {
 		p.PGas, p.PBank, p.PMulti, p.PDelay, p.PDup, p.PDrop, p.PCrash, p.PTorn, p.PRestart, p.PGenesis = 0, 0, 0, 0, 0, 0, 0, 0, 0, 0
